@@ -102,8 +102,21 @@ GoodPrefixes(nm) ==
   THEN {<<K("k1"), I(0), I(0 - 1)>>, <<K("k1"), FL("-inf"), FL("+inf")>>, <<K("k1"), B("1", TRUE), I(5)>>}
   ELSE {Good(Sig[nm][1])}
 
+\* longer option tails that the bounded enumeration does not reach: every ordered pair of SET expiry options (with values),
+\* NX/XX around them, two and three score/member pairs for ZADD with a flag and with a dangling half
+Expiry == {"EX", "PX", "EXAT", "PXAT"}
+Extra(nm) ==
+  IF nm = "SET" THEN {<<K("k1"), V("v1"), W(a), I(5), W(b), I(7)>> : a \in Expiry, b \in Expiry}
+                \cup {<<K("k1"), V("v1"), W(x), W(a), I(5), W("GET")>> : x \in {"NX", "XX"}, a \in Expiry}
+                \cup {<<K("k1"), V("v1"), W(a), I(5), W(x), W(y)>> : a \in Expiry, x \in {"NX", "XX"}, y \in {"NX", "XX", "KEEPTTL"}}
+  ELSE IF nm = "ZADD" THEN {<<K("k1"), I(1), K("m1"), FL("1.5"), K("m2")>>, <<K("k1"), W("CH"), I(1), K("m1"), FL("1.5"), K("m2")>>,
+                            <<K("k1"), I(1), K("m1"), FL("1.5"), K("m2"), I(2)>>, <<K("k1"), W("NX"), I(1), K("m1"), I(2)>>,
+                            <<K("k1"), I(1), K("m1"), I(2), K("m2"), I(1), K("m1")>>, <<K("k1"), I(1), K("m1"), J("w:abc"), K("m2")>>,
+                            <<K("k1"), W("XX"), W("CH"), W("INCR"), I(1), K("m1")>>, <<K("k1"), I(1), K("m1"), I(2), NULL>>}
+  ELSE {}
+
 Vectors(nm) == LET pos == Sig[nm][1] pool == Sig[nm][2] mx == Sig[nm][3] IN
-               Positional(pos) \cup {g \o t : g \in GoodPrefixes(nm), t \in Seqs(pool, mx)}
+               Positional(pos) \cup {g \o t : g \in GoodPrefixes(nm), t \in Seqs(pool, mx)} \cup Extra(nm)
 
 Cls(nm, v) == IF nm \in HandlerCommands THEN Expect(nm, v).st
               ELSE IF nm \in DerivedCommands THEN (IF DerivedState(nm, v) = "ill" THEN "ill" ELSE "other")
